@@ -89,11 +89,49 @@ type c04aClient struct {
 	// has filtering by the rule lists on or off of its own.
 	OwnSettings bool `json:"use_own_settings"`
 	Filtering   bool `json:"own_filtering_enabled"`
+	// SafeSearch: own safe search on; as in production the client then has a
+	// safe-search engine of its own, otherwise none.
+	SafeSearch bool `json:"own_safe_search_enabled"`
 
 	ips  []netip.Addr
 	nets []netip.Prefix
 	macs []string
 	cids []string
+}
+
+// c04aSS is a recognisable safe-search engine: it rewrites the one search host
+// to a name that tells which engine answered.
+type c04aSS struct{ id string }
+
+const c04aSearchHost = "search.verif.example"
+
+func (e *c04aSS) CheckHost(_ context.Context, host string, _ uint16) (res filtering.Result, err error) {
+	if host != c04aSearchHost {
+		return filtering.Result{}, nil
+	}
+
+	return filtering.Result{
+		Reason:     filtering.FilteredSafeSearch,
+		IsFiltered: true,
+		CanonName:  e.id + ".safesearch.verif.example",
+		IPList:     []netip.Addr{netip.MustParseAddr("192.0.2.77")},
+	}, nil
+}
+
+func (e *c04aSS) Update(_ context.Context, _ filtering.SafeSearchConfig) (err error) { return nil }
+
+// c04aWantEngine says which safe-search engine must handle a request: the
+// owner's own when it opts out of the global settings and has safe search on,
+// none when it opts out and has it off, the global one (global safe search is
+// on) for clients on the global settings and for requests of nobody.
+func c04aWantEngine(owner *c04aClient) string {
+	switch {
+	case owner == nil || !owner.OwnSettings:
+		return "global"
+	case owner.SafeSearch:
+		return owner.Name
+	}
+	return "none"
 }
 
 func c04aForm(a netip.Addr) string {
@@ -217,6 +255,8 @@ func TestVerifC04Attribution(t *testing.T) {
 	f, err := filtering.New(&filtering.Config{
 		DataDir: dir, ProtectionEnabled: true, BlockingMode: filtering.BlockingModeDefault,
 		FilteringEnabled: false, Filters: []filtering.FilterYAML{fy}, UserRules: []string{"||" + c04aCustomHost + "^"},
+		// Global safe search is on, with an engine of its own.
+		SafeSearch: &c04aSS{id: "global"}, SafeSearchConf: filtering.SafeSearchConfig{Enabled: true},
 		BlockedServices: &filtering.BlockedServices{Schedule: vkWeekly(false), IDs: []string{"amazon"}},
 		ApplyClientFiltering: func(id string, a netip.Addr, setts *filtering.Settings) {
 			cur.ApplyClientFiltering(id, a, setts)
@@ -258,28 +298,34 @@ func TestVerifC04Attribution(t *testing.T) {
 	defer func() { _ = s.Stop() }()
 
 	var reqID uint64 = 1 << 20
+	// The engine the previous safe-search request had to be handled by.
+	prevEngine := ""
 	nReg := verifkit.Pick(1500, 20000)
 	for ri := 0; ri < nReg && rep.ViolationsTotal < 40; ri++ {
-		c04aRegistry(ctx, rep, rng, s, ql, &cur, &reqID)
+		c04aRegistry(ctx, rep, rng, s, ql, &cur, &reqID, &prevEngine)
 	}
 
 	if !rep.Violated() {
 		for ev, min := range map[string]int{
-			"requests:zoned-ipv6":                                                       1000,
-			"requests:ipv4-mapped":                                                      300,
-			"decided_by:exact-ip:zoned-ipv6":                                            100,
-			"decided_by:cidr:zoned-ipv6":                                                100,
-			"decided_by:dhcp-mac:zoned-ipv6":                                            20,
-			"decided_by:clientid":                                                       300,
-			"exact_ip_owner_differs_from_containing_cidr_owner":                         100,
-			"zoned_exact_ip_owner_differs_from_containing_cidr_owner":                   50,
-			"zoned_exact_ip_owner_and_other_owner_of_unzoned_same_addr":                 5,
-			"pipeline_verdicts_checked":                                                 2000,
-			"pipeline_rule_list_verdicts:client-uses-own-settings:own-filtering-on":     500,
-			"pipeline_rule_list_verdicts:client-uses-own-settings:own-filtering-off":    500,
-			"pipeline_rule_list_verdicts:client-uses-global-settings:own-filtering-on":  500,
-			"pipeline_rule_list_verdicts:client-uses-global-settings:own-filtering-off": 500,
-			"pipeline_rule_list_verdicts:client-uses-none":                              500,
+			"requests:zoned-ipv6":                                                               1000,
+			"requests:ipv4-mapped":                                                              300,
+			"decided_by:exact-ip:zoned-ipv6":                                                    100,
+			"decided_by:cidr:zoned-ipv6":                                                        100,
+			"decided_by:dhcp-mac:zoned-ipv6":                                                    20,
+			"decided_by:clientid":                                                               300,
+			"exact_ip_owner_differs_from_containing_cidr_owner":                                 100,
+			"zoned_exact_ip_owner_differs_from_containing_cidr_owner":                           50,
+			"zoned_exact_ip_owner_and_other_owner_of_unzoned_same_addr":                         5,
+			"pipeline_verdicts_checked":                                                         2000,
+			"pipeline_safe_search_verdicts:want-own-engine":                                     500,
+			"pipeline_safe_search_verdicts:want-global":                                         500,
+			"pipeline_safe_search_verdicts:want-none":                                           500,
+			"pipeline_safe_search_verdicts_right_after_request_of_other_client_with_own_engine": 500,
+			"pipeline_rule_list_verdicts:client-uses-own-settings:own-filtering-on":             500,
+			"pipeline_rule_list_verdicts:client-uses-own-settings:own-filtering-off":            500,
+			"pipeline_rule_list_verdicts:client-uses-global-settings:own-filtering-on":          500,
+			"pipeline_rule_list_verdicts:client-uses-global-settings:own-filtering-off":         500,
+			"pipeline_rule_list_verdicts:client-uses-none":                                      500,
 		} {
 			if rep.Events[ev] < min {
 				rep.Inconcl(fmt.Sprintf("event %q seen %d times, fewer than %d", ev, rep.Events[ev], min))
@@ -290,7 +336,7 @@ func TestVerifC04Attribution(t *testing.T) {
 
 // c04aRegistry generates one registry, installs it behind the server and runs
 // all requests against it.
-func c04aRegistry(ctx context.Context, rep *verifkit.Report, rng *rand.Rand, s *Server, ql *vkQLog, cur **client.Storage, reqID *uint64) {
+func c04aRegistry(ctx context.Context, rep *verifkit.Report, rng *rand.Rand, s *Server, ql *vkQLog, cur **client.Storage, reqID *uint64, prevEngine *string) {
 	leases := map[netip.Addr]net.HardwareAddr{}
 	for _, a := range c04aLeasable {
 		if rng.Intn(2) == 0 {
@@ -308,7 +354,7 @@ func c04aRegistry(ctx context.Context, rep *verifkit.Report, rng *rand.Rand, s *
 	names := slices.Clone(c04aNames)
 	rng.Shuffle(len(names), func(i, j int) { names[i], names[j] = names[j], names[i] })
 	for _, n := range names[:3+rng.Intn(4)] {
-		c := &c04aClient{Name: n, Service: c04aSvcOf[n], OwnSettings: rng.Intn(2) == 0, Filtering: rng.Intn(2) == 0}
+		c := &c04aClient{Name: n, Service: c04aSvcOf[n], OwnSettings: rng.Intn(2) == 0, Filtering: rng.Intn(2) == 0, SafeSearch: rng.Intn(2) == 0}
 		for k := 1 + rng.Intn(3); k > 0; k-- {
 			id := pool[rng.Intn(len(pool))]
 			if !slices.Contains(c.IDs, id) {
@@ -318,7 +364,11 @@ func c04aRegistry(ctx context.Context, rep *verifkit.Report, rng *rand.Rand, s *
 		p := &client.Persistent{
 			Name: n, UID: client.MustNewUID(), UseOwnBlockedServices: true,
 			UseOwnSettings: c.OwnSettings, FilteringEnabled: c.Filtering,
+			SafeSearchConf:  filtering.SafeSearchConfig{Enabled: c.SafeSearch},
 			BlockedServices: &filtering.BlockedServices{Schedule: vkWeekly(false), IDs: []string{c.Service}},
+		}
+		if c.SafeSearch {
+			p.SafeSearch = &c04aSS{id: n}
 		}
 		if err = p.SetIDs(slices.Clone(c.IDs)); err != nil {
 			rep.Inconcl("generator: SetIDs: " + err.Error())
@@ -409,6 +459,56 @@ func c04aRegistry(ctx context.Context, rep *verifkit.Report, rng *rand.Rand, s *
 				findName = p.Name
 			}
 
+			// (B3) first of all the whole pipeline for the search host: which
+			// safe-search engine rewrote it, whatever request the server handled
+			// before (the previous pipeline run belonged to the previous request).
+			if form != "ipv4-mapped" {
+				wantEng := c04aWantEngine(owner)
+				m3 := &dns.Msg{}
+				m3.SetQuestion(c04aSearchHost+".", dns.TypeA)
+				*reqID++
+				p3 := &proxy.DNSContext{Proto: proto, Req: m3, Addr: netip.AddrPortFrom(a, 5353), RequestID: *reqID}
+				if cid != "" {
+					var key [8]byte
+					binary.BigEndian.PutUint64(key[:], p3.RequestID)
+					s.clientIDCache.Set(key[:], []byte(cid))
+				}
+				ql.take()
+				herr := s.handleDNSRequest(nil, p3)
+				es := ql.take()
+				if herr != nil || p3.Res == nil || len(es) != 1 || es[0].Result == nil {
+					rep.Event("pipeline_requests_without_verdict")
+				} else {
+					gotEng := "none"
+					if r3 := es[0].Result; r3.Reason == filtering.FilteredSafeSearch {
+						gotEng = strings.TrimSuffix(r3.CanonName, ".safesearch.verif.example")
+					}
+					wl := wantEng
+					if wl != "global" && wl != "none" {
+						wl = "own-engine"
+					}
+					rep.Event("pipeline_safe_search_verdicts:want-" + wl)
+					if *prevEngine != "" && *prevEngine != "global" && *prevEngine != "none" && *prevEngine != wantEng {
+						rep.Event("pipeline_safe_search_verdicts_right_after_request_of_other_client_with_own_engine")
+					}
+					*prevEngine = wantEng
+					if gotEng != wantEng {
+						rel := "engine-of-another-client"
+						if gotEng == "global" || gotEng == "none" {
+							rel = gotEng
+						} else if owner != nil && gotEng == owner.Name {
+							rel = "own-engine"
+						}
+						rep.Violate("attribution:pipeline:safe-search:want-"+wl+":got-"+rel+":request-of-"+map[bool]string{true: "nobody", false: "a-client"}[owner == nil],
+							fmt.Sprintf("request from %s (ClientID %q) for %s, owner %q (own settings %v, own safe search %v): handled by safe-search engine %q, want %q",
+								src, cid, c04aSearchHost, wantName, owner != nil && owner.OwnSettings, owner != nil && owner.SafeSearch, gotEng, wantEng),
+							witness(map[string]any{"question": c04aSearchHost, "logged_result": fmt.Sprintf("%+v", es[0].Result), "answer": vkRRStrings(p3.Res.Answer),
+								"global_safe_search": true, "want_engine": wantEng, "got_engine": gotEng}))
+						return
+					}
+				}
+			}
+
 			// (A) the settings path of the server.
 			msg := &dns.Msg{}
 			svcHost := "amazon"
@@ -449,6 +549,22 @@ func c04aRegistry(ctx context.Context, rep *verifkit.Report, rng *rand.Rand, s *
 					fmt.Sprintf("request from %s (ClientID %q): rules of services %v apply, those of %q were expected", src, cid, rules, svcHost),
 					witness(map[string]any{"settings_client_name": gotName, "settings_services_with_rules": rules}))
 				return
+			}
+			// The safe-search engine in the per-request settings: the owner's
+			// own, or none (the global engine is then used when the flag is on).
+			if judged {
+				gotEng, wantEng := "none", c04aWantEngine(owner)
+				if e, ok := setts.ClientSafeSearch.(*c04aSS); ok && e != nil {
+					gotEng = e.id
+				} else if setts.ClientSafeSearch != nil {
+					gotEng = "unknown-object"
+				}
+				if gotEng != "none" && gotEng != wantEng {
+					rep.Violate("attribution:settings:safe-search-engine-of-another-client:request-of-"+map[bool]string{true: "nobody", false: "a-client"}[owner == nil],
+						fmt.Sprintf("request from %s (ClientID %q), owner %q: the per-request settings carry the safe-search engine of client %q", src, cid, wantName, gotEng),
+						witness(map[string]any{"settings_client_name": gotName, "settings_client_safe_search_engine": gotEng, "want_engine": wantEng}))
+					return
+				}
 			}
 
 			// (B) the whole pipeline: the owner's own service must be blocked.
